@@ -2,7 +2,8 @@
 # run every check of a tier in sequence; prints one summary line per check
 tier="${1:-quick}"
 cd "$(dirname "$0")"
-for c in C01 C02 C03 C04 C05 C06 C07 C08 C09 C10 C11 C12 C13 C14 C15 C16 C17 C18 C19; do
+# optional: CHECKS="C08 C13" restricts the run
+for c in ${CHECKS:-C01 C02 C03 C04 C05 C06 C07 C08 C09 C10 C11 C12 C13 C14 C15 C16 C17 C18 C19}; do
   out=$(timeout ${CHECK_TIMEOUT:-7200} ./check $c $tier 2>&1); code=$?
   echo "$out" | grep -E "VIOLATION|KNOWN-FINDING|MACHINERY" | head -5
   echo "$out" | tail -1 | sed "s/$/ [exit $code]/"
